@@ -524,9 +524,9 @@ GATE_TABLE = {
     "treeinfo.Variants.deserialize": TWO_WAY_00,
     "treeinfo.VariantPaths.deserialize": THREE_WAY,
     "treeinfo.Variant.deserialize": THREE_WAY,
-    "treeinfo.Images._fix_path": [("any", "==0.0", "absolute legacy paths rewritten")],
-    "treeinfo.Stage2._fix_path": [("any", "==0.0", "absolute legacy paths rewritten")],
-    "treeinfo.Checksums._fix_path": [("any", "==0.0", "absolute legacy paths rewritten")],
+    "treeinfo.Images._fix_path": [("rewrite", "==0.0", "absolute legacy paths rewritten")],
+    "treeinfo.Stage2._fix_path": [("rewrite", "==0.0", "absolute legacy paths rewritten")],
+    "treeinfo.Checksums._fix_path": [("rewrite", "==0.0", "absolute legacy paths rewritten")],
     "treeinfo.Media.deserialize": TWO_WAY_00,
 }
 
@@ -557,6 +557,14 @@ def r_gate(model, rep, tier, only=None):
     funcs = {}
     for s in sites:
         funcs.setdefault(s.fref.qname, s.fref)
+    # a gate may also test a local that holds the version (``v = self.header.version_tuple; if v <= (0, 3)``): the terms see it
+    for fr in model.all_functions():
+        if fr.qname in funcs:
+            continue
+        if not any(isinstance(n, ast.Attribute) and n.attr == "version_tuple" for n in ast.walk(fr.node)):
+            continue
+        if any(_gated(ev) for ev in facts.fctx(model, fr).events):
+            funcs[fr.qname] = fr
     for q in sorted(set(funcs) | set(GATE_TABLE)):
         if only is not None and q not in only:
             continue
@@ -575,6 +583,17 @@ def r_gate(model, rep, tier, only=None):
         claimed = set()
         for marker, spec, what in want:
             pred = _p(spec)
+            if marker == "rewrite":
+                # 'the function returns something other than its argument' as a function of the version (scenario evaluation)
+                arg = ("param", cx.params[1])
+                diff = [v for v in grid if (facts.at_version(cx, v).returns() != [arg]) != pred(v)]
+                for ev in gated:
+                    claimed.add(ev.seq)
+                rep.ob("R-GATE", "%s:%s" % (q, what), not diff, site=cx.site(f.node),
+                       msg="" if not diff else "'%s' happens for a different set of versions than the documented 'version %s': differs at %s"
+                       % (what, spec, ", ".join("%d.%d" % v for v in diff[:6])),
+                       facts={"marker": marker, "documented": spec, "grid": len(grid)})
+                continue
             evs = [ev for ev in gated if _matches(marker, ev)]
             if not evs:
                 rep.ob("R-GATE", "%s:%s" % (q, what), False, site=cx.site(f.node),
